@@ -210,3 +210,59 @@ func VerifC11_LiteralRoundTrip() {
 	zzverif.Assert(reread.Value.Native() == s, "printed text literal does not parse back to the same value")
 	zzverif.Assert(reread.String() == printed, "printing a re-parsed text literal gives a different text")
 }
+
+// VerifC11_Lookups: chains of lookups, calls and parentheses — an atom (a
+// name, a dotted name, a numeric dot lookup, an array lookup, a call, a
+// parenthesised name) followed by up to three of: ".name", ".digits",
+// "[index]", a wrapping pair of parentheses — as in dot indexing into nested
+// arrays, `(grid.1).2`.  Every such text that parses prints to text that
+// parses to the same structure (parentheses that keep two integers of
+// adjacent numeric lookups apart included), and printing is a fixed point
+// after one round.
+// cover: numeric-after-parenthesised-numeric, nested-parentheses, index-after-call, three-steps
+func VerifC11_Lookups() {
+	bases := []string{"a", "a.b", "a.1", "a[0]", "f(a)", "(a)"}
+	src := bases[zzverif.Choice("base", len(bases))]
+	steps := 0
+	for k := 0; k < 3; k++ {
+		step := zzverif.Choice("step", 6) // 0 = stop
+		if step == 0 {
+			break
+		}
+		steps++
+		switch step {
+		case 1:
+			src += ".b"
+		case 2:
+			if strings.HasSuffix(src, ".1)") || strings.HasSuffix(src, ".2)") {
+				zzverif.Cover("numeric-after-parenthesised-numeric")
+			}
+			src += ".2"
+		case 3:
+			if strings.HasSuffix(src, "(a)") && strings.HasPrefix(src, "f") {
+				zzverif.Cover("index-after-call")
+			}
+			src += "[1]"
+		case 4:
+			if strings.HasPrefix(src, "(") && strings.HasSuffix(src, ")") {
+				zzverif.Cover("nested-parentheses")
+			}
+			src = "(" + src + ")"
+		default:
+			src = "(" + src + ").1"
+		}
+	}
+	if steps == 3 {
+		zzverif.Cover("three-steps")
+	}
+	e1, err := Parse(src, nil)
+	if err != nil {
+		return // (e.g. "a.1.2": the lexer reads 1.2 as one number)
+	}
+	printed := e1.String()
+	zzverif.Note(src, " prints as ", printed)
+	e2, err := Parse(printed, nil)
+	zzverif.Assert(err == nil, "the printed form of a parseable expression does not parse")
+	zzverif.Assert(verifNormDump(e1) == verifNormDump(e2), "printing and re-parsing changed the structure of the expression")
+	zzverif.Assert(e2.String() == printed, "printing is not a fixed point after one round")
+}
